@@ -13,14 +13,15 @@ import (
 )
 
 type c12Case struct {
-	ID    string   `json:"id"`
-	Kind  string   `json:"kind"`
-	Ops   []string `json:"ops,omitempty"`
-	Pair  string   `json:"pair,omitempty"`
-	Sched string   `json:"sched,omitempty"`
-	Rep   int      `json:"rep,omitempty"`
-	Seed  int64    `json:"seed,omitempty"`
-	G     int      `json:"g,omitempty"`
+	ID     string   `json:"id"`
+	Kind   string   `json:"kind"`
+	Ops    []string `json:"ops,omitempty"`
+	Pair   string   `json:"pair,omitempty"`
+	Sched  string   `json:"sched,omitempty"`
+	Rep    int      `json:"rep,omitempty"`
+	Seed   int64    `json:"seed,omitempty"`
+	G      int      `json:"g,omitempty"`
+	Settle bool     `json:"settle,omitempty"`
 }
 
 type c12Result struct {
@@ -184,10 +185,21 @@ func C12(r *core.Run) {
 		hist = append(hist, c12Case{ID: fmt.Sprintf("h%d", i), Kind: "hist", Ops: ops})
 	}
 	exhaustive := len(hist)
+	// every history in which the backend closes runs a second time with the other
+	// ordering: the calls after the close wait until the agent has noticed it
+	for _, h := range hist[:exhaustive] {
+		for _, op := range h.Ops {
+			if op == "bc" {
+				hist = append(hist, c12Case{ID: h.ID + "s", Kind: "hist", Ops: h.Ops, Settle: true})
+				break
+			}
+		}
+	}
+	settled := len(hist) - exhaustive
 	rng := r.Rand("c12")
 	if !r.Quick() {
 		for i := 0; i < 25000; i++ {
-			hist = append(hist, c12Case{ID: fmt.Sprintf("hs%d-%d", r.Seed, i), Kind: "hist", Ops: c12Sample(rng, 5+rng.Intn(3))})
+			hist = append(hist, c12Case{ID: fmt.Sprintf("hs%d-%d", r.Seed, i), Kind: "hist", Ops: c12Sample(rng, 5+rng.Intn(3)), Settle: i%2 == 1})
 		}
 	}
 	reps := r.Pick(20, 200)
@@ -365,7 +377,11 @@ func C12(r *core.Run) {
 		r.Add("oracle_evaluations_skipped_after_repeated_misses", res.Unjudged)
 		switch c.Kind {
 		case "hist":
-			r.Case("history:" + strings.Join(c.Ops, ","))
+			if c.Settle {
+				r.Case("history(polls after the agent noticed the backend close):" + strings.Join(c.Ops, ","))
+			} else {
+				r.Case("history:" + strings.Join(c.Ops, ","))
+			}
 			r.Add("history_steps_skipped", res.Skipped)
 		case "forced":
 			key := c.Pair + "/" + c.Sched
@@ -415,7 +431,8 @@ func C12(r *core.Run) {
 	}
 	r.Set("histories_exhaustive_up_to_length_4", exhaustive)
 	r.Set("exhaustive_part", "sequential histories up to length 4 over the 18-call alphabet (all that the session model enables)")
-	r.Set("histories_sampled_length_5_to_7", len(hist)-exhaustive)
+	r.Set("histories_sampled_length_5_to_7", len(hist)-exhaustive-settled)
+	r.Set("histories_repeated_with_calls_after_agent_noticed_backend_close", settled)
 	r.Set("forced_schedules_defined", len(scheds))
 	r.Set("forced_orders_executed_distinct", len(forcedOrders))
 	r.Set("forced_orders_executed", forcedOrders)
@@ -428,7 +445,7 @@ func C12(r *core.Run) {
 	r.Set("hook_hits", hits)
 	r.Set("max_case_duration_ms", maxMs)
 	r.JudgeRaces(core.ParseRaceLogs(filepath.Join(r.WorkDir, "race-")))
-	minCases := exhaustive + len(forced) + len(stress) + len(batch) + len(noread) - 50
+	minCases := exhaustive + settled + len(forced) + len(stress) + len(batch) + len(noread) - 50
 	if r.OnlyCase >= 0 {
 		minCases = 1
 	}
